@@ -400,8 +400,14 @@ func (a *nilAn) invMap(m ssa.Value, field string) bool {
 	if f == nil {
 		return false
 	}
-	set := a.cfg.MapValueNonNil[f.Name()]
-	return set != nil && set[field]
+	// the configured names denote fields of the check state, which may have been renamed:
+	// resolve them (by name, else by their type) and compare the field objects
+	for name, set := range a.cfg.MapValueNonNil {
+		if rf := a.c.P.Field("internal/analysis", "CheckResult", name); rf != nil && rf == f {
+			return set[field]
+		}
+	}
+	return false
 }
 
 func (a *nilAn) callStatus(call *ssa.Call, idx int, fn *ssa.Function, b *ssa.BasicBlock, depth int) (nilStatus, int, string) {
